@@ -1,6 +1,643 @@
-//! C13 — not implemented yet.
-use crate::report::{Cfg, Report};
+//! C13 — autocorrelation, AR fitting and forecasting are consistent (DESIGN §3 C13).
+//!
+//! Events: every `acovf`, `acf`, `difference`, `AR::fit`, `AR::predict`, `AR::predict_one` call
+//! (value or panic). Oracle: biased-estimator definitions in double-double with a-priori rounding
+//! bounds; Yule–Walker residual and Levinson–Durbin (double-double) for the fit; a reference
+//! forecaster `μ + Σ φ_i (x_{t−i} − μ)` for the forecasts; the metamorphic relation
+//! `predict(x + c) = predict(x) + c`; decay to the mean.
+//!
+//! Mean handling is the mechanism the property is anchored in, so every forecast assertion is
+//! evaluated under one of two regimes: `mean==0` (the fitted intercept is *exactly* 0: the series
+//! lives on a 2^-20 grid and was centred in integer arithmetic) and `mean!=0`. A second, weaker
+//! assertion (`…reference_or_rawmodel`) accepts either the reference or the one known deviating
+//! model ("recursion on the raw history, intercept added at the end"), so that a finding under
+//! `…reference|mean!=0` cannot hide a different breakage on the same inputs.
+use crate::gen::Rng;
+use crate::oracle::dd::{self, gamma_n, Dd, U};
+use crate::oracle::linref;
+use crate::report::{guard, jf, jnum, par_cases, same_bits, Cfg, Hasher, Report};
+use compute::timeseries::{acf, acovf, difference, AR};
+use serde_json::json;
 
-pub fn run(_cfg: &Cfg, rep: &mut Report) {
-    rep.inconclusive("monitor for C13 not implemented".to_string());
+const GRID: f64 = 1048576.0; // 2^20: every series value is a multiple of 2^-20
+const EPS: f64 = f64::EPSILON;
+const H: usize = 1000;
+
+// ---------------------------------------------------------------------------------------------
+// generators
+
+/// Durbin–Levinson: partial autocorrelations in (−1,1) → coefficients of a stationary AR(p).
+fn pacf_to_phi(pacf: &[f64]) -> Vec<f64> {
+    let mut phi: Vec<f64> = Vec::new();
+    for (k, &a) in pacf.iter().enumerate() {
+        let mut new = vec![0.0; k + 1];
+        for j in 0..k {
+            new[j] = phi[j] - a * phi[k - 1 - j];
+        }
+        new[k] = a;
+        phi = new;
+    }
+    phi
+}
+
+struct Series {
+    kind: &'static str,
+    off: &'static str,
+    x: Vec<f64>,
+}
+
+fn gen_series(rng: &mut Rng, lite: bool) -> Series {
+    let nmax = if lite { 300.0 } else { 5000.0 };
+    let n = rng.log_range(10.0, nmax).round() as usize;
+    let kind = *rng.choose(&["ar", "ar", "ar+trend", "const+noise"]);
+    let s = rng.log_range(0.1, 100.0);
+    let mut x: Vec<f64> = match kind {
+        "const+noise" => (0..n).map(|_| s * rng.normal()).collect(),
+        _ => {
+            let p = rng.usize(1, 6);
+            let lim = if rng.chance(0.2) { 0.98 } else { 0.85 };
+            let pacf: Vec<f64> = (0..p).map(|_| rng.range(-lim, lim)).collect();
+            let phi = pacf_to_phi(&pacf);
+            let burn = 300;
+            let mut y = vec![0.0; p];
+            for _ in 0..burn + n {
+                let l = y.len();
+                let mut v = rng.normal();
+                for i in 0..p {
+                    v += phi[i] * y[l - 1 - i];
+                }
+                y.push(v);
+            }
+            let l = y.len();
+            y[l - n..].iter().map(|v| s * v).collect()
+        }
+    };
+    if kind == "ar+trend" {
+        let slope = s * rng.log_range(1e-3, 1.0) * if rng.bool() { 1.0 } else { -1.0 };
+        for (t, v) in x.iter_mut().enumerate() {
+            *v += slope * t as f64;
+        }
+    }
+    let off = *rng.choose(&["mean==0", "offset-small", "offset-large", "offset-large"]);
+    let mut u: Vec<i64> = x.iter().map(|v| (v * GRID).round() as i64).collect();
+    // centre exactly in integer units, then add the offset (also on the grid)
+    let sum: i64 = u.iter().sum();
+    let q = sum.div_euclid(n as i64);
+    let r = sum.rem_euclid(n as i64) as usize;
+    for (i, v) in u.iter_mut().enumerate() {
+        *v -= q + if i < r { 1 } else { 0 };
+    }
+    let shift = match off {
+        "mean==0" => 0.0,
+        "offset-small" => rng.range(-10.0, 10.0) * s.max(1.0),
+        _ => rng.log_range(1e2, 1e6) * if rng.bool() { 1.0 } else { -1.0 },
+    };
+    let su = (shift * GRID).round() as i64;
+    let x: Vec<f64> = u.iter().map(|&v| (v + su) as f64 / GRID).collect();
+    Series { kind, off, x }
+}
+
+// ---------------------------------------------------------------------------------------------
+// double-double definitions
+
+struct Defs {
+    n: usize,
+    mean: Dd,
+    d: Vec<Dd>,
+    c0: f64,
+    /// a-priori bound on |acovf_f64(k) − acovf(k)| valid for every lag
+    b_acov: f64,
+}
+
+fn defs(x: &[f64]) -> Defs {
+    let n = x.len();
+    let mean = dd::mean(x);
+    let d: Vec<Dd> = x.iter().map(|&v| Dd::new(v) - mean).collect();
+    let nf = n as f64;
+    let c0 = acov_ref(&d, 0).f();
+    let meanabs = x.iter().map(|v| v.abs()).sum::<f64>() / nf;
+    let maxd = d.iter().fold(0.0f64, |m, v| m.max(v.f().abs()));
+    let dbar = d.iter().map(|v| v.f().abs()).sum::<f64>() / nf;
+    // error of the computed mean (any summation order) and of each centred value
+    let delta = (nf + 2.0) * U * meanabs;
+    let dp = delta + U * (maxd + delta);
+    let pert = 2.0 * dp * dbar + dp * dp;
+    // ×4: headroom over the first-order worst case (second-order terms, rounding of the bound itself)
+    let b_acov = 4.0 * (pert + gamma_n(n + 3) * (c0 + pert));
+    Defs { n, mean, d, c0, b_acov }
+}
+
+fn acov_ref(d: &[Dd], k: usize) -> Dd {
+    let n = d.len();
+    if k >= n {
+        return Dd::ZERO;
+    }
+    let mut s = Dd::ZERO;
+    for i in k..n {
+        s = s + d[i] * d[i - k];
+    }
+    s / Dd::new(n as f64)
+}
+
+/// Levinson–Durbin in double-double: r[0..=p] → φ_1..φ_p.
+fn levinson(r: &[Dd], p: usize) -> Vec<Dd> {
+    let mut phi: Vec<Dd> = Vec::new();
+    let mut v = r[0];
+    for k in 1..=p {
+        let mut acc = r[k];
+        for j in 1..k {
+            acc = acc - phi[j - 1] * r[k - j];
+        }
+        let a = acc / v;
+        let mut new = phi.clone();
+        for j in 1..k {
+            new[j - 1] = phi[j - 1] - a * phi[k - 1 - j];
+        }
+        new.push(a);
+        phi = new;
+        v = v * (Dd::ONE - a * a);
+    }
+    phi
+}
+
+// ---------------------------------------------------------------------------------------------
+// forecasters (phi[i] multiplies the value i+1 steps back)
+
+/// `centre` = value subtracted from the history before and added after the recursion
+/// (reference: the intercept; raw-history model: 0 before, intercept after).
+fn forecast_dd(phi: &[f64], hist: &[f64], sub: f64, add: f64, h: usize) -> Vec<f64> {
+    let p = phi.len();
+    let mut c: Vec<Dd> = hist[hist.len() - p..].iter().map(|&v| Dd::new(v) - Dd::new(sub)).collect();
+    let mut out = Vec::with_capacity(h);
+    for _ in 0..h {
+        let l = c.len();
+        let mut w = Dd::ZERO;
+        for i in 0..p {
+            w = w + c[l - 1 - i] * phi[i];
+        }
+        c.push(w);
+        out.push((w + Dd::new(add)).f());
+    }
+    out
+}
+
+/// Divergence of the plain f64 recursion from one with a relative perturbation of 4ε injected
+/// into every new value (running maximum): the self-calibrated part of the tolerance.
+fn calibrate(phi: &[f64], hist: &[f64], mu: f64, h: usize, rng: &mut Rng) -> Vec<f64> {
+    let p = phi.len();
+    let mut a: Vec<f64> = hist[hist.len() - p..].iter().map(|&v| v - mu).collect();
+    let mut b = a.clone();
+    let mut out = Vec::with_capacity(h);
+    let mut run = 0.0f64;
+    for _ in 0..h {
+        let l = a.len();
+        let (mut wa, mut wb) = (0.0, 0.0);
+        for i in 0..p {
+            wa += a[l - 1 - i] * phi[i];
+            wb += b[l - 1 - i] * phi[i];
+        }
+        wb *= 1.0 + 4.0 * EPS * if rng.bool() { 1.0 } else { -1.0 };
+        a.push(wa);
+        b.push(wb);
+        let d = (wa - wb).abs();
+        if d > run || d.is_nan() {
+            run = d;
+        }
+        out.push(run);
+    }
+    out
+}
+
+fn worst(got: &[f64], reference: &[f64], tol: &[f64]) -> (f64, usize) {
+    let mut w = 0.0f64;
+    let mut at = 0;
+    if got.len() != reference.len() {
+        return (f64::INFINITY, 0);
+    }
+    for i in 0..got.len() {
+        let e = (got[i] - reference[i]).abs();
+        let r = if e.is_nan() { f64::INFINITY } else { e / tol[i] };
+        if r > w {
+            w = r;
+            at = i;
+        }
+    }
+    (w, at)
+}
+
+// ---------------------------------------------------------------------------------------------
+// monitors
+
+fn check_acf(rep: &mut Report, regime: &str, x: &[f64], df: &Defs) {
+    let n = df.n as i32;
+    let mut lags: Vec<i32> = (-50..=50).collect();
+    lags.extend_from_slice(&[n - 1, -(n - 1), n, -n, n + 1, -(n + 1), 5000, -5000, 100_000]);
+    let detail = |what: &str, k: i32, obs: f64, exp: f64, bound: f64| json!({"fn": what, "lag": k, "n": x.len(), "series": jf(x), "observed": jnum(obs), "expected": jnum(exp), "bound": jnum(bound)});
+    let b_acf = if df.b_acov < 0.25 * df.c0 { 2.0 * df.b_acov / (df.c0 - df.b_acov) + 4.0 * U } else { f64::INFINITY };
+    if !b_acf.is_finite() {
+        rep.seen("acf:low-power(offset/sd too large for an a-priori bound)", 1);
+    }
+    let c0dd = acov_ref(&df.d, 0);
+    for &k in &lags {
+        let r = guard(|| (acovf(x, k), acf(x, k)));
+        let (cv, rv) = match r {
+            Ok(v) => {
+                rep.check("C13.acf.no_panic", regime, true, || json!(null));
+                v
+            }
+            Err(msg) => {
+                rep.check("C13.acf.no_panic", regime, false, || json!({"lag": k, "n": x.len(), "series": jf(x), "panic": msg}));
+                continue;
+            }
+        };
+        let ka = k.unsigned_abs() as usize;
+        let cref = acov_ref(&df.d, ka);
+        let e = (Dd::new(cv) - cref).f().abs();
+        let ratio = if e == 0.0 { 0.0 } else { e / df.b_acov };
+        rep.note_max("worst_ratio.acovf_vs_bound", if ratio.is_nan() { f64::INFINITY } else { ratio });
+        rep.check("C13.acovf.definition", regime, ratio <= 1.0, || detail("acovf", k, cv, cref.f(), df.b_acov));
+        let rref = if ka >= df.n { 0.0 } else { (cref / c0dd).f() };
+        if b_acf.is_finite() {
+            let e = (rv - rref).abs();
+            let ratio = if e == 0.0 { 0.0 } else { e / b_acf };
+            rep.note_max("worst_ratio.acf_vs_bound", if ratio.is_nan() { f64::INFINITY } else { ratio });
+            rep.check("C13.acf.definition", regime, ratio <= 1.0, || detail("acf", k, rv, rref, b_acf));
+        }
+        // |acf| ≤ 1: Cauchy–Schwarz holds for the centred values as computed; only the two sums round
+        rep.check("C13.acf.bounded", regime, rv.abs() <= 1.0 + 4.0 * EPS, || detail("acf", k, rv, rref, 1.0 + 4.0 * EPS));
+        if k == 0 {
+            rep.note_max("worst.acf0_minus_1_in_eps", (rv - 1.0).abs() / EPS);
+            rep.check("C13.acf.lag0_is_one", regime, (rv - 1.0).abs() <= 4.0 * EPS, || detail("acf", 0, rv, 1.0, 4.0 * EPS));
+        }
+        if k > 0 {
+            let r2 = guard(|| (acovf(x, -k), acf(x, -k)));
+            if let Ok((c2, r2)) = r2 {
+                rep.check("C13.acovf.even", regime, same_bits(cv, c2), || detail("acovf(-k)", -k, c2, cv, 0.0));
+                rep.check("C13.acf.even", regime, same_bits(rv, r2), || detail("acf(-k)", -k, r2, rv, 0.0));
+            }
+        }
+    }
+}
+
+fn check_difference(rep: &mut Report, regime: &str, x: &[f64], rng: &mut Rng) {
+    // (a) integer-valued grid data: the cumulative sums are exact, so the round trip must be bit-exact
+    let v: Vec<f64> = x.to_vec();
+    let mut cs = Vec::with_capacity(v.len());
+    let mut s = Dd::ZERO;
+    let mut exact = true;
+    for &a in &v {
+        s = s + Dd::new(a);
+        if s.lo != 0.0 {
+            exact = false;
+        }
+        cs.push(s.f());
+    }
+    let got = guard(|| difference(cs.clone()));
+    match got {
+        Err(msg) => {
+            rep.check("C13.difference.no_panic", regime, false, || json!({"input": jf(&cs), "panic": msg}));
+        }
+        Ok(d) => {
+            let len_ok = d.len() == v.len() - 1;
+            rep.check("C13.difference.length", regime, len_ok, || json!({"input_len": cs.len(), "output_len": d.len()}));
+            if len_ok {
+                let mut w = 0.0f64;
+                let mut at = 0;
+                for i in 0..d.len() {
+                    let tol = if exact { 0.0 } else { 16.0 * EPS * (cs[i].abs() + cs[i + 1].abs()) };
+                    let e = (d[i] - v[i + 1]).abs();
+                    let r = if e <= tol { if tol > 0.0 { e / tol } else { 0.0 } } else { f64::INFINITY };
+                    if r > w {
+                        w = r;
+                        at = i;
+                    }
+                }
+                if !exact {
+                    rep.note_max("worst_ratio.difference_roundtrip", w);
+                }
+                let a = if exact { "C13.difference.inverse_of_cumsum.exact" } else { "C13.difference.inverse_of_cumsum" };
+                rep.check(a, regime, w <= 1.0, || json!({"v": jf(&v), "cumsum": jf(&cs), "index": at, "observed": jnum(d[at]), "expected": jnum(v[at + 1])}));
+            }
+        }
+    }
+    // (b) generic doubles (not on the grid): rounding of the cumulative sum is bounded by ε|s|
+    let m = v.len().min(200);
+    let g: Vec<f64> = (0..m).map(|i| v[i] * (1.0 + rng.f64()) + rng.normal() * 1e-3).collect();
+    let mut cs = Vec::with_capacity(m);
+    let mut s = Dd::ZERO;
+    for &a in &g {
+        s = s + Dd::new(a);
+        cs.push(s.f());
+    }
+    if let Ok(d) = guard(|| difference(cs.clone())) {
+        if d.len() == m - 1 {
+            let mut w = 0.0f64;
+            let mut at = 0;
+            for i in 0..d.len() {
+                let tol = 16.0 * EPS * (cs[i].abs() + cs[i + 1].abs());
+                let e = (d[i] - g[i + 1]).abs();
+                let r = if e == 0.0 { 0.0 } else { e / tol };
+                if r > w || r.is_nan() {
+                    w = if r.is_nan() { f64::INFINITY } else { r };
+                    at = i;
+                }
+            }
+            rep.note_max("worst_ratio.difference_roundtrip", w);
+            rep.check("C13.difference.inverse_of_cumsum", regime, w <= 1.0, || json!({"v": jf(&g), "cumsum": jf(&cs), "index": at, "observed": jnum(d[at]), "expected": jnum(g[at + 1])}));
+        } else {
+            rep.check("C13.difference.length", regime, false, || json!({"input_len": m, "output_len": d.len()}));
+        }
+    }
+}
+
+struct Fit {
+    phi: Vec<f64>, // natural order φ_1..φ_p
+    mu: f64,
+    kappa: f64,
+}
+
+fn fit_and_check(rep: &mut Report, regime: &str, x: &[f64], df: &Defs, p: usize) -> Option<(AR, Fit)> {
+    let fitted = guard(|| {
+        let mut m = AR::new(p);
+        m.fit(x);
+        m
+    });
+    let m = match fitted {
+        Ok(m) => {
+            rep.check("C13.fit.no_panic", regime, true, || json!(null));
+            m
+        }
+        Err(msg) => {
+            rep.check("C13.fit.no_panic", regime, false, || json!({"p": p, "series": jf(x), "panic": msg}));
+            return None;
+        }
+    };
+    let shape_ok = m.coeffs.len() == p;
+    rep.check("C13.fit.order", regime, shape_ok, || json!({"p": p, "coeffs": jf(&m.coeffs)}));
+    if !shape_ok {
+        return None;
+    }
+    // intercept = mean
+    let nf = df.n as f64;
+    let meanabs = x.iter().map(|v| v.abs()).sum::<f64>() / nf;
+    let tol_mu = 2.0 * (nf + 2.0) * U * meanabs;
+    let e = (Dd::new(m.intercept) - df.mean).f().abs();
+    let r = if e == 0.0 { 0.0 } else { e / tol_mu };
+    rep.note_max("worst_ratio.intercept_vs_bound", if r.is_nan() { f64::INFINITY } else { r });
+    rep.check("C13.fit.intercept_is_mean", regime, r <= 1.0, || json!({"p": p, "series": jf(x), "observed": jnum(m.intercept), "expected": jnum(df.mean.f()), "bound": tol_mu}));
+    let phi: Vec<f64> = m.coeffs.iter().rev().copied().collect();
+    // Yule–Walker with the double-double autocorrelations of the series
+    let c0 = acov_ref(&df.d, 0);
+    let r_dd: Vec<Dd> = (0..=p).map(|k| acov_ref(&df.d, k) / c0).collect();
+    let rf: Vec<f64> = r_dd.iter().map(|v| v.f()).collect();
+    let mut toep = vec![0.0; p * p];
+    for i in 0..p {
+        for j in 0..p {
+            toep[i * p + j] = rf[i.abs_diff(j)];
+        }
+    }
+    let kappa = linref::cond_inf(&toep, p);
+    let eta = if df.b_acov < 0.25 * df.c0 { 2.0 * df.b_acov / (df.c0 - df.b_acov) + 4.0 * U } else { f64::INFINITY };
+    let l1: f64 = phi.iter().map(|v| v.abs()).sum();
+    let fwd = kappa * (8.0 * p as f64 * EPS + 2.0 * eta) * (1.0 + l1);
+    if !(fwd <= 1e-3) {
+        // the a-priori bound says nothing here: do not judge the coefficients
+        rep.seen("fit:low-power(kappa*eps too large)", 1);
+    } else {
+        let mut res = 0.0f64;
+        for i in 0..p {
+            let mut s = -r_dd[i + 1];
+            for j in 0..p {
+                s = s + r_dd[i.abs_diff(j)] * phi[j];
+            }
+            let a = s.f().abs();
+            res = if a.is_nan() { f64::INFINITY } else { res.max(a) };
+        }
+        let tol_res = (8.0 * p as f64 * EPS * kappa + 2.0 * eta) * (1.0 + l1);
+        rep.note_max("worst_ratio.yule_walker_residual", res / tol_res);
+        rep.check("C13.fit.yule_walker", regime, res <= tol_res, || json!({"p": p, "series": jf(x), "acf": jf(&rf), "phi": jf(&phi), "residual_inf": jnum(res), "bound": tol_res, "kappa": jnum(kappa)}));
+        let ld: Vec<f64> = levinson(&r_dd, p).iter().map(|v| v.f()).collect();
+        let mut werr = 0.0f64;
+        for i in 0..p {
+            let a = (phi[i] - ld[i]).abs();
+            werr = if a.is_nan() { f64::INFINITY } else { werr.max(a) };
+        }
+        let l1ref: f64 = ld.iter().map(|v| v.abs()).sum();
+        let fwd_ref = kappa * (8.0 * p as f64 * EPS + 2.0 * eta) * (1.0 + l1ref);
+        rep.note_max("worst_ratio.coeffs_vs_levinson", werr / fwd_ref);
+        rep.check("C13.fit.levinson", regime, werr <= fwd_ref, || json!({"p": p, "series": jf(x), "phi": jf(&phi), "levinson": jf(&ld), "bound": fwd_ref, "kappa": jnum(kappa)}));
+    }
+    let mu = m.intercept;
+    Some((m, Fit { phi, mu, kappa }))
+}
+
+/// All forecast assertions for one fitted model on one history. Returns the library's forecasts.
+fn check_forecasts(rep: &mut Report, m: &AR, f: &Fit, x: &[f64], sd: f64, rng: &mut Rng, full: bool) -> Option<Vec<f64>> {
+    let p = f.phi.len();
+    let regime = if f.mu == 0.0 { "mean==0" } else { "mean!=0" };
+    rep.seen(regime, 1);
+    let lib = match guard(|| m.predict(x, H)) {
+        Ok(v) => {
+            rep.check("C13.predict.no_panic", regime, true, || json!(null));
+            v
+        }
+        Err(msg) => {
+            rep.check("C13.predict.no_panic", regime, false, || json!({"p": p, "series": jf(x), "h": H, "panic": msg}));
+            return None;
+        }
+    };
+    let len_ok = lib.len() == H;
+    rep.check("C13.predict.length", regime, len_ok, || json!({"h": H, "len": lib.len()}));
+    if !len_ok {
+        return None;
+    }
+    let reference = forecast_dd(&f.phi, x, f.mu, f.mu, H);
+    let raw = forecast_dd(&f.phi, x, 0.0, f.mu, H);
+    let cal = calibrate(&f.phi, x, f.mu, H, rng);
+    let amp = x[x.len() - p..].iter().fold(sd, |a, &v| a.max((v - f.mu).abs()));
+    let base = 1e-9 * (f.mu.abs() + amp);
+    let tol: Vec<f64> = cal.iter().map(|c| base + 1e3 * c).collect();
+    let low_power = !(1e3 * cal[H - 1] <= 1e-6 * amp);
+    if low_power {
+        rep.seen("predict:low-power(recursion amplifies rounding)", 1);
+    }
+    let (w_ref, at) = worst(&lib, &reference, &tol);
+    let (w_raw, _) = worst(&lib, &raw, &tol);
+    let detail = |h: usize| json!({"p": p, "coeffs_reversed": jf(&m.coeffs), "intercept": jnum(f.mu), "history_tail": jf(&x[x.len() - p..]), "n": x.len(), "horizon": h + 1,
+        "observed": jnum(lib[h]), "expected": jnum(reference[h]), "tolerance": tol[h], "first_forecasts_observed": jf(&lib[..5.min(H)]), "first_forecasts_expected": jf(&reference[..5.min(H)])});
+    if f.mu == 0.0 {
+        rep.note_max("worst_ratio.predict_vs_reference(mean==0)", w_ref);
+    } else if w_ref <= 1.0 {
+        rep.note_max("worst_ratio.predict_vs_reference(mean!=0,passing)", w_ref);
+    }
+    rep.note_max("worst_ratio.predict_vs_reference_or_rawmodel", w_ref.min(w_raw));
+    rep.check("C13.predict.reference", regime, w_ref <= 1.0, || detail(at));
+    rep.check("C13.predict.reference_or_rawmodel", regime, w_ref.min(w_raw) <= 1.0, || detail(at));
+    // shorter horizons are prefixes of the long one (each h is a separate call)
+    let hs: Vec<usize> = if full { (1..=H).collect() } else { vec![1, 2, 3, p, p + 1, rng.usize(4, 50), rng.usize(51, H - 1)] };
+    let mut prefix_ok = true;
+    let mut bad_h = 0;
+    for &h in &hs {
+        match guard(|| m.predict(x, h)) {
+            Ok(v) => {
+                if v.len() != h || !v.iter().zip(&lib).all(|(a, b)| same_bits(*a, *b)) {
+                    prefix_ok = false;
+                    bad_h = h;
+                }
+            }
+            Err(_) => {
+                prefix_ok = false;
+                bad_h = h;
+            }
+        }
+    }
+    rep.check("C13.predict.horizon_prefix", regime, prefix_ok, || json!({"p": p, "n": x.len(), "h": bad_h, "what": "predict(data,h) is not the first h values of predict(data,1000)"}));
+    // predict_one on several history lengths
+    let mut ms = vec![x.len(), x.len() - 1];
+    ms.push(rng.usize(p, x.len()));
+    for mlen in ms {
+        if mlen < p {
+            continue;
+        }
+        let hist = &x[..mlen];
+        let r1 = forecast_dd(&f.phi, hist, f.mu, f.mu, 1)[0];
+        let raw1 = forecast_dd(&f.phi, hist, 0.0, 0.0, 1)[0]; // Σ φ_i x_{t−i}, no intercept at all
+        let amp1 = hist[mlen - p..].iter().fold(sd, |a, &v| a.max((v - f.mu).abs()));
+        let t1 = 1e-9 * (f.mu.abs() + amp1);
+        match guard(|| m.predict_one(hist)) {
+            Ok(v) => {
+                let e = (v - r1).abs() / t1;
+                let e = if e.is_nan() { f64::INFINITY } else { e };
+                let e2 = (v - raw1).abs() / t1;
+                let e2 = if e2.is_nan() { f64::INFINITY } else { e2 };
+                if f.mu == 0.0 {
+                    rep.note_max("worst_ratio.predict_one_vs_reference(mean==0)", e);
+                }
+                let d = || json!({"p": p, "coeffs_reversed": jf(&m.coeffs), "intercept": jnum(f.mu), "history_tail": jf(&hist[mlen - p..]), "observed": jnum(v), "expected": jnum(r1), "tolerance": t1});
+                rep.check("C13.predict_one.reference", regime, e <= 1.0, d);
+                rep.check("C13.predict_one.reference_or_rawmodel", regime, e.min(e2) <= 1.0, d);
+            }
+            Err(msg) => {
+                rep.check("C13.predict_one.no_panic", regime, false, || json!({"p": p, "history_len": mlen, "panic": msg}));
+            }
+        }
+    }
+    // decay to the mean
+    let decayed = (reference[H - 1] - f.mu).abs() <= 1e-9 * sd;
+    if decayed {
+        rep.seen(&format!("decay-checked:{}", regime), 1);
+        let dev = (lib[H - 1] - f.mu).abs();
+        let t = 1e-6 * sd + 4.0 * EPS * f.mu.abs();
+        rep.note_max(if f.mu == 0.0 { "worst_ratio.decay(mean==0)" } else { "worst_ratio.decay(mean!=0)" }, dev / t);
+        rep.check("C13.predict.decay_to_mean", regime, dev <= t, || json!({"p": p, "coeffs_reversed": jf(&m.coeffs), "intercept": jnum(f.mu), "history_tail": jf(&x[x.len() - p..]), "forecast_1000": jnum(lib[H - 1]), "reference_1000": jnum(reference[H - 1]), "tolerance": t}));
+    }
+    Some(lib)
+}
+
+fn one_series(cfg: &Cfg, rng: &mut Rng, rep: &mut Report) {
+    let s = gen_series(rng, cfg.lite);
+    let x = &s.x;
+    let regime = format!("{}:{}", s.kind, s.off);
+    rep.case(&regime);
+    let df = defs(x);
+    let sd = df.c0.sqrt();
+    rep.distinct(Hasher::new().s(&regime).u(x.len() as u64).fs(&x[..x.len().min(16)]).finish(), df.c0 > 0.0);
+    check_acf(rep, &regime, x, &df);
+    check_difference(rep, &regime, x, rng);
+    let np = if cfg.thorough() { 3 } else { 2 };
+    let mut orders = vec![rng.usize(1, 8)];
+    while orders.len() < np {
+        let p = rng.usize(1, 8);
+        if !orders.contains(&p) {
+            orders.push(p);
+        }
+    }
+    for (oi, &p) in orders.iter().enumerate() {
+        let Some((m, f)) = fit_and_check(rep, &regime, x, &df, p) else { continue };
+        rep.seen(&format!("order:{}", p), 1);
+        if f.phi.iter().any(|v| !v.is_finite()) {
+            continue;
+        }
+        let full = oi == 0 && rng.chance(if cfg.thorough() { 0.05 } else { 0.1 });
+        let Some(base) = check_forecasts(rep, &m, &f, x, sd, rng, full) else { continue };
+        if oi == 0 {
+            rep.sample(|| json!({"regime": regime, "n": x.len(), "p": p, "phi": jf(&f.phi), "intercept": jnum(f.mu), "kappa": jnum(f.kappa), "forecasts": jf(&base[..3])}));
+        }
+        // metamorphic: a constant added to the series is added to every forecast
+        if f.kappa > 1e4 {
+            rep.seen("shift:skipped(kappa>1e4)", 1);
+            continue;
+        }
+        let p_amp = x[x.len() - p..].iter().fold(sd, |a, &v| a.max((v - f.mu).abs()));
+        let cal = calibrate(&f.phi, x, f.mu, H, rng);
+        for c in [1.0, 1e3, 1e6] {
+            let xs: Vec<f64> = x.iter().map(|v| v + c).collect();
+            let dfs = defs(&xs);
+            let sreg = "shift:c>0";
+            let Some((ms, fs)) = fit_and_check(rep, &format!("{}+shift", regime), &xs, &dfs, p) else { continue };
+            if fs.phi.iter().any(|v| !v.is_finite()) {
+                continue;
+            }
+            // the shifted series is itself a mean!=0 series: all forecast assertions apply to it
+            let Some(shifted) = check_forecasts(rep, &ms, &fs, &xs, sd, rng, false) else { continue };
+            rep.seen(sreg, 1);
+            let base_tol = 1e-9 * (c + f.mu.abs() + p_amp);
+            let mut w = 0.0f64;
+            let mut at = 0;
+            for h in 0..H {
+                let e = (shifted[h] - base[h] - c).abs() / (base_tol + 1e3 * cal[h]);
+                let e = if e.is_nan() { f64::INFINITY } else { e };
+                if e > w {
+                    w = e;
+                    at = h;
+                }
+            }
+            if w <= 1.0 {
+                rep.note_max("worst_ratio.shift_equivariance(passing)", w);
+            }
+            rep.check("C13.predict.shift_equivariance", sreg, w <= 1.0, || json!({"p": p, "n": x.len(), "c": c, "series_tail": jf(&x[x.len() - p..]), "phi": jf(&f.phi), "intercept": jnum(f.mu),
+                "horizon": at + 1, "forecast_shifted": jnum(shifted[at]), "forecast_base": jnum(base[at]), "difference": jnum(shifted[at] - base[at]), "expected_difference": c, "tolerance": base_tol + 1e3 * cal[at]}));
+        }
+    }
+}
+
+pub fn run(cfg: &Cfg, rep: &mut Report) {
+    rep.rule = "random series: AR(1..6) simulated from random partial autocorrelations (stationary by construction), AR + linear trend, constant + white noise; scale 0.1..100, length log-uniform 10..5000; centred exactly (integer arithmetic on a 2^-20 grid, fitted intercept == 0.0), small offset, or offset 1e2..1e6; per series all lags -50..50 and |lag| >= n, 2-3 model orders in 1..8, horizons 1..1000, shifts c in {1,1e3,1e6}. non-trivial = non-constant series; distinct by (regime, length, first 16 values)".into();
+    rep.assume("series values are multiples of 2^-20 with |x| < 2^22, so x + c is exactly representable and the shifted input is not itself rounded");
+    rep.assume("model order p <= 8 < 10 <= series length (predict_one with fewer than p values and predict on shorter histories are outside the quantifier)");
+    rep.assume("coefficients are read from AR.coeffs in the documented (reversed) storage order");
+    rep.assume("coefficient checks are skipped when kappa(R)*(8p*eps + acf error bound) > 1e-3 and shift equivariance when kappa(R) > 1e4: there a refit legitimately moves the coefficients by more than the tolerance (counted under the low-power / skipped regimes)");
+    rep.assume("'forecasts converge to the mean' is restated as: equality with the reference recursion for every horizon <= 1000, and |f_1000 - mean| <= 1e-6 sd whenever the reference has decayed below 1e-9 sd");
+    let n = cfg.pick(300, 6000, 3);
+    par_cases(cfg, rep, 1, n, |_i, rng, rep| one_series(cfg, rng, rep));
+    // directed: the unit-test series shape (short, zero-mean-ish) and the DESIGN probe (AR(2) + 1000)
+    par_cases(cfg, rep, 2, 1, |_i, rng, rep| {
+        let phi = [0.6, -0.3];
+        let mut y = vec![0.0, 0.0];
+        for _ in 0..260 {
+            let l = y.len();
+            y.push(phi[0] * y[l - 1] + phi[1] * y[l - 2] + rng.normal());
+        }
+        let x: Vec<f64> = y[62..].iter().map(|v| ((v + 1000.0) * GRID).round() / GRID).collect();
+        rep.case("directed:ar2+1000");
+        let df = defs(&x);
+        if let Some((m, f)) = fit_and_check(rep, "directed:ar2+1000", &x, &df, 2) {
+            check_forecasts(rep, &m, &f, &x, df.c0.sqrt(), rng, false);
+        }
+    });
+    if !cfg.lite {
+        for kind in ["ar", "ar+trend", "const+noise"] {
+            for off in ["mean==0", "offset-small", "offset-large"] {
+                rep.require(&format!("{}:{}", kind, off), 1);
+            }
+        }
+        for p in 1..=8 {
+            rep.require(&format!("order:{}", p), 1);
+        }
+        rep.require("mean==0", 10);
+        rep.require("mean!=0", 10);
+        rep.require("shift:c>0", 10);
+        rep.require("decay-checked:mean==0", 5);
+        rep.require("decay-checked:mean!=0", 5);
+    }
 }
